@@ -187,14 +187,14 @@ pub fn run_case(c: &Case, r: &mut Report, prop: &str) {
     if c.also_check_claim {
         // ... and an expectation on ANOTHER claim that the token satisfies (the time validators must still all run)
         cfg.expected.push(Claim::Custom("data".into(), json!("time-claim probe")));
-        if c.class.ends_with("+check_claim(other)") {
-            // only the other claim
-        } else
-        if let Some(Value::String(s)) = &ev {
-            cfg.expected.push(Claim::Exp(s.clone()));
-        }
-        if let Some(Value::String(s)) = &nv {
-            cfg.expected.push(Claim::Nbf(s.clone()));
+        if !c.class.ends_with("+check_claim(other)") {
+            // ... plus the token's own time values (the "(other)" class registers ONLY the other claim)
+            if let Some(Value::String(s)) = &ev {
+                cfg.expected.push(Claim::Exp(s.clone()));
+            }
+            if let Some(Value::String(s)) = &nv {
+                cfg.expected.push(Claim::Nbf(s.clone()));
+            }
         }
     }
     let (out, _) = batteries_open(c.p, &c.key, &token, &cfg);
